@@ -132,7 +132,7 @@ def _strategy(nmax: int):
     def case(draw: Any) -> dict:
         dtype = draw(st.sampled_from(["f32", "f64"]))
         recipe = draw(matgen.st_recipe(max_logk=4.0 if dtype == "f32" else 9.0, allow_neg=True, allow_zero=True))
-        return {"n": draw(st.one_of(st.integers(2, min(10, nmax)), st.integers(1, nmax))), "dtype": dtype, "recipe": recipe,
+        return {"n": (draw(st.one_of(st.integers(2, min(10, nmax)), st.integers(1, nmax))) if nmax <= 24 else draw(st.one_of(st.integers(25, nmax), st.sampled_from([32, 33, 64])))), "dtype": dtype, "recipe": recipe,
                 "eps_rel": draw(st.one_of(st.floats(-8, 0).map(lambda e: 10.0**e), st.sampled_from([1e-6, 1e-3, 1.0]))),
                 "root": draw(matgen.st_root()), "stab": draw(st.booleans()), "qseed": draw(st.integers(0, 10**6))}
 
@@ -175,6 +175,6 @@ def oracle_shapes(case: dict) -> Outcome:
 
 STREAMS = {
     "laws": Stream("laws", oracle=oracle, strategy=strategy, quick=10000, thorough=250000, shards_quick=16, shards_thorough=16),
-    "laws_large": Stream("laws_large", oracle=oracle, strategy=strategy_large, quick=0, thorough=40000, shards_quick=1, shards_thorough=16),
+    "laws_large": Stream("laws_large", oracle=oracle, strategy=strategy_large, quick=320, thorough=40000, shards_quick=8, shards_thorough=16),
     "shapes": Stream("shapes", oracle=oracle_shapes, strategy=strategy_shapes, quick=1500, thorough=10000, shards_quick=2, shards_thorough=4),
 }
